@@ -276,7 +276,7 @@ func checkC08(c *Ctx) {
 				}
 			}
 			c.MaxObs("circle_worst_endpoint_error_over_bound", worst/bound)
-			if worst > bound*(1+1e-9)+1e-12*radius {
+			if worst > bound*(1+1e-9)+1e-12*radius+snapEps { // snapEps: corner values within the renderer's absolute epsilon of zero move the endpoint onto the node
 				c.Violate("", fmt.Sprintf("ms-accuracy %s %s cells=%d: endpoint %g off the circle, bound h^2/(8(R-h))=%g", rk.name, desc, cells, worst, bound), cs)
 			}
 			P := 2 * math.Pi * radius
